@@ -488,12 +488,10 @@ def run_config(env, form, allowed, forbidden, only=None):
 
 def shrink(env, form, allowed, forbidden, op, clause, q):
     """Smallest sub-configuration on which the same query still fails the same clause."""
-    a_eff = allowed if allowed is not None else None
-    f_eff = forbidden if forbidden is not None else None
     cands = []
-    for e in (a_eff or []):
+    for e in (allowed or []):
         cands.append(([e], [], "allowed=" + entry_repr(e)))
-    for e in (f_eff or []):
+    for e in (forbidden or []):
         cands.append(([("re", r".*")], [e], "forbidden=" + entry_repr(e)))
     if allowed is None:
         cands.append((None, [], "allowed=default"))
@@ -501,10 +499,7 @@ def shrink(env, form, allowed, forbidden, op, clause, q):
         cands.append(([("re", r".*")], None, "forbidden=default"))
     kind = "traverse" if op == "traverse" else op
     for a, f, name in cands:
-        try:
-            r = run_config(env, "new", a, f, only=(kind, q))
-        except par.HarnessError:
-            raise
+        r = run_config(env, "new", a, f, only=(kind, q))
         if any(p[0] == op and p[1].split("@")[0] == clause.split("@")[0] for p in r.problems):
             return name, a, f
     return f"allowed={list_repr(allowed)};forbidden={list_repr(forbidden)}", allowed, forbidden
@@ -593,7 +588,6 @@ def _e2e_task(arg):
             sf_finders.get_finder.cache_clear()
             try:
                 _f, order = env.finder()
-                roots = tree["roots"]
                 V = {lab: {rel: verdicts(allowed, forbidden, rel) for rel in tree["files"][lab]} for lab in order}
                 rels = sorted({rel for lab in order for rel in V[lab]})
                 # collectstatic (dry run)
